@@ -93,6 +93,62 @@ pub fn check(ctx: &Ctx, case: &Case, obs: &mut Obs, _replaying: bool) -> CheckRe
     Ok(())
 }
 
+/// Near-duplicate rules: two (or three) rules over the same base relations whose bodies differ only
+/// in how the variables are arranged, in a constant, or in one comparison - the inputs on which
+/// passes that work across rules (subplan sharing, join planning with shared scans) can wrongly
+/// identify two different sub-plans.
+fn near_duplicate_case(tape: &[u16]) -> Case {
+    use crate::common::gen::Tape;
+    use crate::common::prog::{Atom, Clause, Edb, Lit, Op, Program, HT, T};
+    let mut t = Tape::new(tape);
+    let ar_b = 2 + t.below(2); // b is binary or ternary
+    let vars = |t: &mut Tape, n: usize, pool: u8| -> Vec<T> { (0..n).map(|_| T::V(t.below(pool as usize) as u8)).collect() };
+    let body = |t: &mut Tape| -> Vec<Lit> {
+        let mut b = vec![Lit::Pos(Atom { rel: "a".into(), args: vec![T::V(0), T::V(1)] }), Lit::Pos(Atom { rel: "b".into(), args: vars(t, ar_b, 3) })];
+        match t.below(4) {
+            0 => b.push(Lit::Cmp(T::V(t.below(2) as u8), [Op::Lt, Op::Gt, Op::Ne, Op::Eq][t.below(4)], T::C(t.below(3) as i64))),
+            1 => b.push(Lit::Pos(Atom { rel: "a".into(), args: vars(t, 2, 3) })),
+            _ => {}
+        }
+        b
+    };
+    let n_rules = 2 + t.below(2);
+    let mut clauses = Vec::new();
+    for i in 0..n_rules {
+        clauses.push(Clause { head: format!("v{i}"), hargs: vec![HT::V(0), HT::V(1)], body: body(&mut t) });
+    }
+    // the query reads the last rule, alone or joined with / negated by an earlier one
+    let last = n_rules - 1;
+    let other = t.below(last.max(1));
+    let mut qb = vec![Lit::Pos(Atom { rel: format!("v{last}"), args: vec![T::V(0), T::V(1)] })];
+    match t.below(3) {
+        0 => {}
+        1 => qb.push(Lit::Pos(Atom { rel: format!("v{other}"), args: vec![T::V(1), T::V(0)] })),
+        _ => qb.push(Lit::Neg(Atom { rel: format!("v{other}"), args: vec![T::V(0), T::V(1)] })),
+    }
+    clauses.push(Clause { head: "q".into(), hargs: vec![HT::V(0), HT::V(1)], body: qb });
+    let mut edb = Edb::new();
+    let mut rows = |t: &mut Tape, n: usize, ar: usize| -> Vec<Vec<i64>> {
+        let mut out: Vec<Vec<i64>> = Vec::new();
+        for _ in 0..n {
+            let r: Vec<i64> = (0..ar).map(|_| t.below(4) as i64).collect();
+            if !out.contains(&r) {
+                out.push(r);
+            }
+        }
+        out
+    };
+    let na = 3 + t.below(6);
+    edb.insert("a".into(), rows(&mut t, na, 2));
+    let nb = 3 + t.below(7);
+    edb.insert("b".into(), rows(&mut t, nb, ar_b));
+    let mut arity: std::collections::BTreeMap<String, usize> = [("a".to_string(), 2usize), ("b".to_string(), ar_b), ("q".to_string(), 2)].into_iter().collect();
+    for i in 0..n_rules {
+        arity.insert(format!("v{i}"), 2);
+    }
+    Case { prog: Program { clauses }, edb, arity }
+}
+
 pub fn run(ctx: &Ctx) {
     ctx.set_rule(
         "G-prog x G-edb (as C01); every case is executed under all 32 OptimizationConfig combinations (exhaustive in that \
@@ -103,11 +159,20 @@ pub fn run(ctx: &Ctx) {
     ctx.assume("metamorphic oracle: configurations are compared with each other only; a uniformly wrong answer is C01's business");
     let n = ctx.cases(1500, 40_000);
     ctx.run_part_with("all_32_configs", n, || case_strategy(GenOpts::default()), |c, o| check(ctx, c, o, false), Some(&crate::common::gen::shrink_case));
+    use proptest::prelude::*;
+    ctx.run_part_with(
+        "near_duplicate_rules",
+        ctx.cases(800, 16_000),
+        || crate::common::gen::tape_strategy(80).prop_map(|t| near_duplicate_case(&t)),
+        |c, o| check(ctx, c, o, false),
+        Some(&crate::common::gen::shrink_case),
+    );
 }
 
 pub fn replay(ctx: &Ctx, part: &str, case: &J) -> Option<Result<CheckResult, String>> {
     Some(match part {
         "all_32_configs" => ctx.replay_case(part, case, |c: &Case, o: &mut Obs| check(ctx, c, o, true)),
+        "near_duplicate_rules" => ctx.replay_case(part, case, |c: &Case, o: &mut Obs| check(ctx, c, o, true)),
         _ => return None,
     })
 }
